@@ -1042,6 +1042,9 @@ YR_API char* yr_compiler_get_error_message(
   case ERROR_DIVISION_BY_ZERO:
     snprintf(buffer, buffer_size, "division by zero");
     break;
+  case ERROR_INVALID_OPERAND:
+    snprintf(buffer, buffer_size, "invalid operand for shift operation");
+    break;
   case ERROR_REGULAR_EXPRESSION_TOO_LARGE:
     snprintf(buffer, buffer_size, "regular expression is too large");
     break;
